@@ -418,6 +418,9 @@ def run(ctx):
     _c03.r03_2_dependency_scan(ctx)
     # ... and the storage back-end of a new ABI value is the proto that is current: it must be restored on every exit (shared with C11)
     _c11.r11_3_exception_safe_restore(ctx)
+    from rules import c13 as _c13
+
+    _c13.r13_5_abi_text_setters(ctx)  # a string / byte-string value set from a Python literal of any length (254, 255, 256, 65535 bytes) carries its uint16 length prefix (shared with C13)
     return (
         "Abstract evaluation of the ABI layer's own code: type descriptors of every shape of a bounded nested universe against an ARC-4 reference model; _encode_tuple on all "
         "short member-kind sequences with symbolic member values (head order, bool runs, running tail offsets as linear forms, tail order); uint range checks and big-endian "
